@@ -230,7 +230,43 @@ func (e *Engine) LoadContracts(specDir string) error {
 			if err != nil {
 				return err
 			}
-			if _, dup := e.contracts[key]; dup {
+			if prev, dup := e.contracts[key]; dup {
+				if prev.Kind == "trusted" && c.Kind == "trusted" && len(prev.Params) == len(c.Params) {
+					// several packages may state what they assume of one external function (each about its own types):
+					// the assumptions add up. Parameter and result names must agree.
+					for i := range c.Params {
+						if c.Params[i].Name != prev.Params[i].Name {
+							return fmt.Errorf("%s:%d: trusted contracts for %s name their parameters differently", c.File, c.Line, key)
+						}
+					}
+					for _, cl := range c.Requires {
+						cl2 := *cl
+						cl2.Idx = len(prev.Requires) + 1
+						prev.Requires = append(prev.Requires, &cl2)
+					}
+					for _, cl := range c.Ensures {
+						cl2 := *cl
+						cl2.Idx = len(prev.Ensures) + 1
+						prev.Ensures = append(prev.Ensures, &cl2)
+					}
+					for _, m := range c.Modifies {
+						if c.Pkg != prev.Pkg && c.Pkg != "" {
+							m = "@@" + c.Pkg + "@@" + m // type names in this item resolve in the package that wrote it
+						}
+						dupm := false
+						for _, pm := range prev.Modifies {
+							if pm == m {
+								dupm = true
+							}
+						}
+						if !dupm {
+							prev.Modifies = append(prev.Modifies, m)
+						}
+					}
+					prev.HasMod = prev.HasMod || c.HasMod
+					prev.Records = append(prev.Records, c.Records...)
+					continue
+				}
 				return fmt.Errorf("%s:%d: duplicate contract for %s", c.File, c.Line, key)
 			}
 			e.contracts[key] = c
@@ -893,6 +929,10 @@ func callbackKey(fn *ssa.Function, v ssa.Value) string {
 				return types.TypeString(T, nil) + "." + st.Field(fa.Field).Name()
 			}
 		}
+		// a package-level function variable (`var clock = func() ...`): "<pkgpath>.<name>"
+		if g, ok := x.X.(*ssa.Global); ok && g.Pkg != nil {
+			return g.Pkg.Pkg.Path() + "." + g.Name()
+		}
 	case *ssa.Parameter:
 		return fn.String() + "." + x.Name()
 	case *ssa.FreeVar:
@@ -1050,6 +1090,15 @@ func (e *Engine) resolveCallbackName(c *Contract) (string, error) {
 		return "", fmt.Errorf("%s:%d: assume-call needs T.field or func.param", c.File, c.Line)
 	}
 	owner, member := c.Name[:i], c.Name[i+1:]
+	if owner == "var" {
+		// a package-level function variable of the contract file's package
+		if sp := e.spkgs[c.Pkg]; sp != nil {
+			if _, ok := sp.Members[member].(*ssa.Global); ok {
+				return c.Pkg + "." + member, nil
+			}
+		}
+		return "", fmt.Errorf("%s:%d: assume-call var.%s: no such package variable", c.File, c.Line, member)
+	}
 	if t := e.lookupTypeIn(owner, c.Pkg); t != nil {
 		if _, st := derefStruct(t); st != nil {
 			for k := 0; k < st.NumFields(); k++ {
